@@ -34,6 +34,50 @@ mod proofs {
         ($m:ident, $R:ident, $N:expr) => {
             mod $m {
                 use super::*;
+                // ---- byte order of read / write (D1): 8 bytes per limb, the most significant limb first for _be, the least for _le; slices as streams
+                #[kani::proof] #[kani::unwind(9)]
+                fn read_be() {
+                    let bytes: [u8; 8 * $N] = kani::any();
+                    let mut r = $R([0u64; $N]);
+                    let mut rd: &[u8] = &bytes[..];
+                    let res = r.read_be(&mut rd);
+                    assert!(res.is_ok()); assert!(rd.len() == 0);
+                    let mut i = 0; while i < $N { let mut w = [0u8; 8]; let mut j = 0; while j < 8 { w[j] = bytes[8 * i + j]; j += 1; } assert!(r.0[$N - 1 - i] == u64::from_be_bytes(w)); i += 1; }
+                }
+                #[kani::proof] #[kani::unwind(9)]
+                fn write_be_cursor() {
+                    let a: [u64; $N] = kani::any(); let fill: u8 = kani::any();
+                    let mut buf = [fill; 8 * $N + 3];
+                    { let mut w: &mut [u8] = &mut buf[..]; let res = $R(a).write_be(&mut w); assert!(res.is_ok()); assert!(w.len() == 3); }
+                    let mut i = 0; while i < $N { let e = a[$N - 1 - i].to_be_bytes(); let mut j = 0; while j < 8 { assert!(buf[8 * i + j] == e[j]); j += 1; } i += 1; }
+                    assert!(buf[8 * $N] == fill && buf[8 * $N + 1] == fill && buf[8 * $N + 2] == fill);
+                }
+                #[kani::proof] #[kani::unwind(9)]
+                fn write_be_vec() {
+                    let a: [u64; $N] = kani::any();
+                    let mut v: Vec<u8> = Vec::new(); v.push(7u8);
+                    assert!($R(a).write_be(&mut v).is_ok());
+                    assert!(v.len() == 8 * $N + 1 && v[0] == 7u8);
+                    let mut i = 0; while i < $N { let e = a[$N - 1 - i].to_be_bytes(); let mut j = 0; while j < 8 { assert!(v[1 + 8 * i + j] == e[j]); j += 1; } i += 1; }
+                }
+                #[kani::proof] #[kani::unwind(50)]
+                fn read_le_write_le() {
+                    let bytes: [u8; 8 * $N] = kani::any();
+                    let mut r = $R([0u64; $N]);
+                    let mut rd: &[u8] = &bytes[..];
+                    assert!(r.read_le(&mut rd).is_ok());
+                    let mut i = 0; while i < $N { let mut w = [0u8; 8]; let mut j = 0; while j < 8 { w[j] = bytes[8 * i + j]; j += 1; } assert!(r.0[i] == u64::from_le_bytes(w)); i += 1; }
+                    let mut out = [0u8; 8 * $N];
+                    { let mut w: &mut [u8] = &mut out[..]; assert!(r.write_le(&mut w).is_ok()); }
+                    let mut k = 0; while k < 8 * $N { assert!(out[k] == bytes[k]); k += 1; }
+                }
+                #[kani::proof] #[kani::unwind(9)]
+                fn read_be_short() {
+                    let bytes: [u8; 8 * $N - 1] = kani::any();
+                    let mut r = $R([0u64; $N]);
+                    let mut rd: &[u8] = &bytes[..];
+                    assert!(r.read_be(&mut rd).is_err());
+                }
                 #[kani::proof] #[kani::unwind(8)]
                 fn is_zero() { let a: [u64; $N] = kani::any(); let r = $R(a); assert!(r.is_zero() == ref_is_zero(&a)); }
                 #[kani::proof] #[kani::unwind(8)]
